@@ -1,17 +1,25 @@
 #!/bin/bash
 # applies every seeded/refactor-<n>/patch.diff (behaviour-preserving rewrites made by sub-agents) to a scratch
-# worktree of /repo (at the commit recorded in `base`, or HEAD when the patch still applies) and runs all
-# quick checks against it: everything must stay silent (known findings may be printed).
+# worktree of /repo and runs all quick checks against it: everything must stay silent (known findings may be
+# printed).  The patch is applied to HEAD (three-way when later repairs touched the same lines, conflicting hunks taken
+# from the refactoring - accepted only if the 56 tests pass); otherwise to the commit recorded in `base`, with the
+# strata tied to later repairs switched off (VERIF_LEGACY=1).
 cd "$(dirname "$0")/.."
+export GOFLAGS=-mod=mod GOPROXY=off GOSUMDB=off GOTOOLCHAIN=local
 for d in seeded/refactor-*/; do
   WT=$(mktemp -d /tmp/ref-XXXXXX); rmdir "$WT"
   git -C /repo worktree add -q --detach "$WT" HEAD || exit 2
-  if ! git -C "$WT" apply "$PWD/$d/patch.diff" 2>/dev/null; then
+  unset VERIF_LEGACY
+  if git -C "$WT" apply "$PWD/$d/patch.diff" 2>/dev/null; then
+    echo "== $d (on HEAD)"
+  elif (cd "$WT" && git apply --3way "$OLDPWD/$d/patch.diff" >/dev/null 2>&1; python3 "$OLDPWD/tools/resolve_theirs.py" *.go cmd/gmars/main.go; go build . ./cmd/gmars >/dev/null 2>&1 && go test -vet=off -count=1 . >/dev/null 2>&1); then
+    echo "== $d (merged three-way onto HEAD)"
+  else
+    git -C "$WT" reset -q --hard; git -C "$WT" clean -fdq
     b=$(cat "$d/base" 2>/dev/null)
     git -C "$WT" checkout -q --detach "$b" && git -C "$WT" apply "$PWD/$d/patch.diff" || { echo "$d: patch does not apply"; git -C /repo worktree remove --force "$WT"; continue; }
-    echo "== $d (on its base commit $b)"
-  else
-    echo "== $d (on HEAD)"
+    export VERIF_LEGACY=1
+    echo "== $d (on its base commit $b, strata tied to later repairs off)"
   fi
   tools/refactortest.sh "$WT"
   git -C /repo worktree remove --force "$WT"; rm -rf "$WT"
